@@ -2,6 +2,8 @@
 import json, os
 from lib import vcheck as V
 
+IDS = ["C01", "C04", "C05"]
+
 RULE_TEXT = {
     "C01": "cells = (cookie content x policy x request x authenticator answers) emitted by TLC from ProxySession.tla "
            "(Forge=TRUE, every transition of the view-reduced graph); each executed against the real proxy with seeded "
